@@ -138,6 +138,33 @@ PROPS = {
         remainder=['compressed proofs: CompressedFriProof::decompress, get_inferred_elements (iterator/HashMap code outside the subset)',
                    'the soundness/collision-resistance argument over the checked conjunction'],
     ),
+    'C16': dict(
+        title='Proof compression is lossless and verification-equivalent',
+        design_ref='DESIGN.md section 4 / C16',
+        bounded=[('plonky2', ['c16_'])],
+        vspecs=['contracts/C16/path_compression.vspec'],
+        level_text='Unbounded deductive proof (Verus/Z3) that compress_merkle_proofs keeps every `known[..]` access in bounds for all index multisets and heights '
+                   'and returns, per input path, a SUBSEQUENCE of that path\'s siblings (nothing invented or reordered). Losslessness of the whole '
+                   'compress/decompress pair and verification equivalence (HashMap / iterator-of-iterators code) are covered by a bounded stand-in only.',
+        level_note='Trusted: Verus+Z3; hashes opaque. decompress_merkle_proofs, FriProof::compress, CompressedFriProof::decompress, get_inferred_elements: '
+                   'bounded harness only (8 arity schedules incl. non-uniform ones, cap heights 0..5, up to 500 queries, all index multisets of small trees).',
+        remainder=['decompress_merkle_proofs (HashMap::entry, iterator of iterators)', 'FriProof::compress / CompressedFriProof::decompress / get_inferred_elements', 'verification equivalence'],
+    ),
+    'C17': dict(
+        title='Binary encodings round-trip and restored circuits are interchangeable',
+        design_ref='DESIGN.md section 4 / C17',
+        bounded=[('plonky2', ['c17_', 'c18_c17_'])],
+        bounded_thorough=[('plonky2', ['t17_'])],
+        vspecs=['contracts/C17/serialization.vspec'],
+        level_text='Unbounded deductive proof (Verus/Z3) for the primitive readers/writers (u8, bool, u32, usize, field): write_T appends exactly enc_T(x); read_T '
+                   'consumes exactly those bytes, fails exactly on short input (read_bool also on bytes > 1), never panics; lemmas read_T(write_T(x) ++ tail) '
+                   '== (x, tail). Composite readers/writers, the tag registries and "a restored circuit proves interchangeably" are covered by a bounded '
+                   'stand-in only.',
+        level_note='Trusted: Verus+Z3; vstd::bytes little-endian specs for from_le_bytes/to_le_bytes; abstract Read/Write. Composite encoders (read_proof, '
+                   'read_common_circuit_data, per-gate and per-generator pairs): bounded harness only (4 circuit families incl. 256-entry lookup tables '
+                   'and random access; restore, prove with the restored circuit, cross-verify).',
+        remainder=['composite readers/writers (closures returning Result)', 'gate / generator serializer registries and per-gate pairs', 'restored circuits interchangeable (whole-system)'],
+    ),
     'C18': dict(
         title='Verifiers and proof decoders fail cleanly on malformed input',
         design_ref='DESIGN.md section 4 / C18',
